@@ -92,17 +92,52 @@ def handlers(key_rx=r".*", default_value=None, owned_keys=None):
         return ListV((), "Vec<?>")
 
     def entry(ex, c, a, d):
-        if _map(ex, a[0]) is None:
+        m = _map(ex, a[0])
+        if m is None:
             return ENV_PASS
-        return AggV((a[0], AggV((key_term_box(ex, a[1]),), "keybox"), a[1]), "SymEntry")
+        kv = key_term_box(ex, a[1])
+        i = _find(ex, m, key_term(ex, kv))
+        e = AggV((a[0], AggV((kv,), "keybox"), (m.items[i][1] if i is not None else UNIT)), "SymEntry")
+        btree = "BTreeMap" in c
+        occupied = i is not None
+        disc = (1 if occupied else 0) if btree else (0 if occupied else 1)
+        return EnumV(disc, ((disc, (e,)),), "BTreeEntry" if btree else "Entry")
+
+    def _entry_of(v):
+        if isinstance(v, EnumV) and v.payloads:
+            v = v.payloads[0][1][0]
+        return v if isinstance(v, AggV) and v.ty == "SymEntry" else None
+
+    def vacant_insert(ex, c, a, d):
+        e = _entry_of(a[0])
+        if e is None:
+            return ENV_PASS
+        mref, kbox, _ = e.fields
+        kv = kbox.fields[0]
+        m = _map(ex, mref)
+        v = deref(ex, a[1]) if isinstance(a[1], RefV) else a[1]
+        cell = ex.ctx.ref_to(v)
+        _wr(ex, mref, MapV(m.items + ((key_term(ex, kv), cell, kv),), m.ty, m.is_set))
+        return cell
+
+    def occupied_get(ex, c, a, d):
+        e = _entry_of(a[0])
+        if e is None:
+            return ENV_PASS
+        cell = e.fields[2]
+        if c.endswith("::insert"):
+            old = _val(ex, cell)
+            _wr(ex, cell, deref(ex, a[1]) if isinstance(a[1], RefV) else a[1])
+            return old
+        return cell if not c.endswith("::remove") else ENV_PASS
 
     def key_term_box(ex, v):
         # keep the key value (not only its term) so that `iter` can yield it back
         return deref(ex, v) if isinstance(v, RefV) else v
 
     def or_default(ex, c, a, d):
-        e = a[0]
-        if not (isinstance(e, AggV) and e.ty == "SymEntry"):
+        e = _entry_of(a[0])
+        if e is None:
             return ENV_PASS
         mref, kbox, _ = e.fields
         kv = kbox.fields[0]
@@ -214,6 +249,8 @@ def handlers(key_rx=r".*", default_value=None, owned_keys=None):
         (rx(H + r".*>::(new|with_capacity|default)$|^<(?:std::collections::)?(?:Hash|BTree)(?:Map|Set)<" + K + r".*> as Default>::default$"), new),
         (rx(H + r".*>::entry$"), entry),
         (rx(r"Entry::<'_, " + K + r".*>::(or_default|or_insert_with::<.*|or_insert)$"), or_default),
+        (rx(r"VacantEntry::<'_, " + K + r".*>::insert$"), vacant_insert),
+        (rx(r"OccupiedEntry::<'_, " + K + r".*>::(get|get_mut|into_mut|insert)$"), occupied_get),
         (rx(H + r".*>::insert$"), insert),
         (rx(H + r".*>::remove(::<.*>)?$"), remove),
         (rx(H + r".*>::(get|get_mut|contains_key|contains)(::<.*>)?$"), get),
